@@ -739,9 +739,9 @@ func c28Special(maxN int) map[int]bool {
 func TestVerifC28(t *testing.T) {
 	r := ev.Start(t, "C28", "exploration")
 	maxN := r.Pick(300, 4200)
-	small := r.Pick(300, 1200) // every (N,l) pair and every key up to here
+	small := r.Pick(300, 1000) // every (N,l) pair and every key up to here
 	constN := 300
-	forkAll := r.Pick(96, 300) // every (N,l) fork pair up to here
+	forkAll := r.Pick(96, 200) // every (N,l) fork pair up to here
 	c := &c28Ctx{r: r, readd: 17, maxSmall: r.Pick(64, 300)}
 	r.Rule(fmt.Sprintf("hash sequence h_i = SHA3(i) ('distinct') for N = 0..%d and the constant sequence ('constant', positive checks only) for N = 0..%d; phase 1: header after every add of a live accumulator and of one re-opened from its buckets before every add, against the reference root; in every situation ALL header-returning entry points are compared with the reference: Len, GetMerkleHeader and Finalize in both orders and repeated, proofs of the first and last key against the finalized header, and the view of an accumulator re-opened from the buckets; phase 1 also on a live accumulator finalized after every add; phase 2 on exact copies of the buckets after N adds: 'header' every N (re-opened, also after the no-op SetLen(N)); 'proof' every N<=%d with every key, larger N with key boundaries and every 16th key: Prove(key,0) accepted by a fresh tree made from the header, and for the distinct sequence rejected with another hash, as key+1/key-1, with one byte flipped in each level, with each level dropped; keys in order with Prove(key,-1) into one tree (N<=%d and the special N); 'rewind' SetLen(l): every pair l<=N<=%d, for larger N: every l for N in {16^k-1,16^k,16^k+1,%d} and l in {0,N-1,N-15,N-16,N-17,16^k-1,16^k,16^k+1} for every N; each rewind on two copies (Finalize asked first / GetMerkleHeader asked first; for odd N+l the N-state is finalized before the rewind): immediately after SetLen(l), before any Add, all entry points incl. the re-opened view (for l=0 the re-opened view is only an observation) = reference of the prefix; SetLen(l+1) fails; re-add (all up to N for N<=%d, else %d) with all entry points after every add; proofs of keys l-1,l; second rewind to l/2 with all entry points; 'fork' (distinct sequence): every l<N<=%d and the boundary l (0,1,N-1,N-2,N-15..N-17,16^k-1..16^k+1, multiples of 16) for larger N: all entry points asked at N, SetLen(l), DIFFERENT hashes added, 3 variants (no query before reaching N again then N+1; grown to N+2 and rewound to N; queries at an intermediate length), all entry points incl. proofs of the new leaves against the reference of the forked sequence. evaluation = one case; non-trivial = distinct (sequence, kind, N, l)", maxN, constN, small, small, small, maxN, c.maxSmall, c.readd, forkAll))
 	r.Assume("reference root: groups of 16 hashed level by level with SHA3-256 until one hash is left; a single hash is its own root", "storage: an in-memory db.Bucket of the harness that copies on Set and Get", "'rejected' means Add returns any error (ErrVerify and other errors are counted separately)")
